@@ -97,6 +97,7 @@ async fn scenario(case: &Value) -> Value {
     let provider = Provider::start(script).await;
     let cfg = config_from(case, &provider.url);
     std::env::set_var("RIP_OPENRESPONSES_DUMP_REQUEST", "1");
+    crate::hub::hub().set_ackdisk(Some(data.join("events.jsonl")));
     let server = crate::srv::Server::start(data.clone(), ws.clone(), Some(cfg), false).await;
     let base = server.base.clone();
     let client = reqwest::Client::new();
@@ -320,9 +321,11 @@ async fn scenario(case: &Value) -> Value {
                    "st": if f["type"] == "tool_task_status" { f.get("status").cloned().unwrap_or(Value::Null) } else { Value::Null }})
         })
         .collect();
+    let (ack_checked, ack_missing) = crate::hub::hub().take_ackdisk();
     let foreign = log_raw.iter().filter(|f| !kinds.contains_key(f["stream_id"].as_str().unwrap_or(""))).count();
     let _ = std::fs::remove_dir_all(&root);
-    json!({"id": case["id"], "streams": streams, "notes": notes, "log_frames": log_raw.len(), "frames_of_other_streams": foreign, "order": order})
+    json!({"id": case["id"], "streams": streams, "notes": notes, "log_frames": log_raw.len(), "frames_of_other_streams": foreign, "order": order,
+           "ack_checked": ack_checked, "ack_not_on_disk": ack_missing})
 }
 
 pub fn engine_fidelity(rt: &tokio::runtime::Runtime, cases: Vec<Value>, out: &mut NdjsonOut) {
